@@ -38,32 +38,5 @@ func toStr(e interface{}) string {
 	return "panic"
 }
 
-// VerifPatchEntry describes one entry of the patch table.
-type VerifPatchEntry struct {
-	Origin      uintptr
-	HasGuard    bool
-	Applied     bool
-	OriginBytes []byte
-	JumpBytes   []byte
-	FixOrigin   uintptr
-}
-
-// VerifPatchTable returns a snapshot of the patch table.
-func VerifPatchTable() []VerifPatchEntry {
-	lock()
-	defer unlock()
-	out := make([]VerifPatchEntry, 0, len(patches))
-	for k, p := range patches {
-		e := VerifPatchEntry{Origin: k, JumpBytes: append([]byte{}, p.jumpBytes...),
-			OriginBytes: append([]byte{}, p.originBytes...), FixOrigin: p.fixOriginPtr}
-		if p.guard != nil {
-			e.HasGuard = true
-			e.Applied = p.guard.applied
-		}
-		out = append(out, e)
-	}
-	return out
-}
-
 // VerifJumpLen is the length of the entry jump on this architecture.
 func VerifJumpLen() int { return len(jmpToFunctionValue(0, 0)) }
